@@ -154,3 +154,104 @@ pub fn check_family(f: &Family, ctx: &mut Ctx, check: &dyn Fn(&G, &mut Ctx) -> R
     }
     Ok(())
 }
+
+// ------------------------------------------------------------------ soak: long histories of a small pool
+/// A pool of tiny graphs built over and over on one thread: every build must serialise to exactly the text of the
+/// first build of the same graph (which the ordinary oracle has checked). Reaches state that only goes wrong after
+/// tens of thousands of calls (wrapping counters, generation stamps, caches that fill up).
+#[derive(Clone, Debug, Serialize, Deserialize)]
+pub struct Soak {
+    pub pool: Vec<G>,
+    pub rounds: usize,
+    /// graph i is built in the rounds that are multiples of periods[i] (missing = 1): the distance between two builds
+    /// of different graphs then sweeps over a wide range instead of repeating
+    #[serde(default)]
+    pub periods: Vec<usize>,
+}
+pub fn gen_soak(t: &mut Tape, tier: Tier) -> Option<Soak> {
+    let n = t.range(3, 8);
+    let mut pool = vec![];
+    for _ in 0..n {
+        let g = gen::gen_any_graph(t, tier);
+        if g.nedges() >= 1 && g.nedges() <= 5 {
+            pool.push(g);
+        }
+    }
+    if pool.len() < 2 {
+        return None;
+    }
+    // graphs of one history share vertex labels in different roles: a vertex that carries edges in one graph is an
+    // external vertex without edges in another
+    for _ in 0..t.below(4) {
+        let a = t.below(pool.len());
+        let b = t.below(pool.len());
+        if a == b {
+            continue;
+        }
+        let va: Vec<u8> = pool[a].edges.iter().flat_map(|&(x, y)| [x, y]).collect();
+        let v = va[t.below(va.len())];
+        if !pool[b].edges.iter().any(|&(x, y)| x == v || y == v) && pool[b].externals.len() < 6 {
+            let pos = t.below(pool[b].externals.len() + 1);
+            pool[b].externals.insert(pos, v);
+        }
+    }
+    let rounds = t.range(tier.pick(20_000, 100_000), tier.pick(200_000, 1_000_000));
+    // period 10^9 = built in round 0 only: everything it left behind ages for the rest of the history
+    let periods: Vec<usize> = (0..pool.len()).map(|i| if i == 0 { 1 } else { *t.pick(&[1usize, 1, 2, 7, 64, 4096, 1_000_000_000, 1_000_000_000]) }).collect();
+    Some(Soak { pool, rounds, periods })
+}
+/// serialisation of a freshly built sampler; `getter_calls` further calls of the public getters are part of the
+/// history (get_dimension() recomputes the loop number of the graph)
+fn fingerprint(g: &G, getter_calls: usize) -> String {
+    fn f<const D: usize>(g: &G, getter_calls: usize) -> String {
+        match crate::sut::build::<D>(g, crate::sut::dummy_sig(g.nedges(), g.num_loops())) {
+            Ok(s) => {
+                let mut txt = serde_json::to_string(&s).unwrap_or_else(|e| format!("UNSERIALISABLE {e}"));
+                let want = crate::gen::dimension(g);
+                for _ in 0..getter_calls {
+                    if s.get_dimension() != want {
+                        txt.push_str(&format!(" get_dimension()={} instead of {want}", s.get_dimension()));
+                        break;
+                    }
+                }
+                txt
+            }
+            Err(crate::sut::BuildErr::Rejected(_)) => "REJECTED".into(),
+            Err(crate::sut::BuildErr::Panic(m)) => format!("PANIC {m}"),
+        }
+    }
+    crate::with_d!(g.d, f(g, getter_calls))
+}
+pub fn check_soak(s: &Soak, ctx: &mut Ctx, check: &dyn Fn(&G, &mut Ctx) -> Result<(), Failure>) -> Result<(), Failure> {
+    if s.pool.is_empty() || s.pool.len() > 16 || s.rounds > 5_000_000 || s.pool.iter().any(|g| g.nedges() == 0 || g.nedges() > 8 || !(1..=6).contains(&g.d)) {
+        fail!("bad-case", "soak outside its domain");
+    }
+    let mut first = vec![];
+    for g in &s.pool {
+        let mut sub = Ctx::default();
+        match check(g, &mut sub) {
+            Ok(()) => {}
+            Err(e) if e.signature == "bad-case" => {}
+            Err(e) => return Err(Failure { signature: format!("soak:{}", e.signature), message: format!("first build of a pool graph: {}", e.message) }),
+        }
+        first.push(fingerprint(g, 1));
+    }
+    for r in 0..s.rounds {
+        for (i, g) in s.pool.iter().enumerate() {
+            let per = s.periods.get(i).copied().unwrap_or(1).max(1);
+            if r % per != 0 {
+                continue;
+            }
+            let fp = fingerprint(g, (r + i) % 3);
+            if fp != first[i] {
+                fail!("soak:build-changed", "a build of pool graph {i} (round {r}, period {per}; nominal build number {}) serialises differently from its first build: the table depends on how many graphs were built before on this thread; graph {g:?}; pool {:?}", r / per + 2, s.pool);
+            }
+        }
+    }
+    ctx.count("soak_builds", (s.rounds * s.pool.len()) as u64);
+    ctx.label("soak");
+    if s.rounds >= 1000 {
+        ctx.nontrivial();
+    }
+    Ok(())
+}
